@@ -41,6 +41,60 @@ def sample_diff(rep, model):
     rep.floor('midpoint-search functions scanned for sample differences', n, 3)
 
 
+def index_dtype(rep, model):
+    """the midpoint arrays index the signal (C17, the row assembly of C01): they must be integer arrays for every number of flanks, zero included"""
+    import ast
+    rep.rule('INDEX-DTYPE', 'no function of the midpoint search builds a returned sample-index array with np.array / np.asarray of a run-time list without an integer dtype: '
+                            'for zero flanks (one peak and one trough) such an array is empty and float64, and indexing the signal with it raises IndexError; the reference '
+                            'allocates np.zeros(n, dtype=int)')
+
+    def hits(fnode):
+        out = []
+        for n in ast.walk(fnode):
+            if isinstance(n, ast.Call) and isinstance(n.func, ast.Attribute) and n.func.attr in ('array', 'asarray') and isinstance(n.func.value, ast.Name) \
+                    and n.func.value.id in ('np', 'numpy') and n.args and not any(k.arg == 'dtype' for k in n.keywords) and len(n.args) < 2:
+                a = n.args[0]
+                literal = isinstance(a, (ast.List, ast.Tuple)) and a.elts and all(isinstance(e, ast.Constant) for e in a.elts)
+                if not literal and isinstance(a, (ast.List, ast.Tuple, ast.ListComp, ast.GeneratorExp, ast.Name)):
+                    out.append((n.lineno, ast.unparse(n)))
+        return out
+    n = 0
+    for q in sorted(common.reachable(model, ['find_zerox'])):
+        f = model.funcs[q]
+        if not f.mod.endswith('cyclepoints.zerox') or f.name == 'find_flank_zerox':
+            continue            # find_flank_zerox returns positions from flatnonzero (integer by construction) or a one-element list
+        n += 1
+        hs = [(ln, t) for ln, t in hits(f.node) if _returned(f.node, ln)]
+        if hs:
+            rep.violation('INDEX-DTYPE', f.name, f'{f.path}:{hs[0][0]} {f.name}', expected='an integer array for every flank count (np.zeros(n, dtype=int) / dtype=int / astype(int))',
+                          found=f'{hs[0][1]}: float64 when the list is empty, and the caller indexes the signal with it')
+        else:
+            rep.ok('INDEX-DTYPE', f.name, f'{f.path}:{f.node.lineno} {f.name}', found='no untyped np.array of a run-time list is returned')
+    ex = ast.parse('def f(sig, n):\n    out = []\n    for i in range(n):\n        out.append(i)\n    w = np.array([1, 2])\n    z = np.array(out, dtype=int)\n    return np.array(out)\n').body[0]
+    got = [(ln, t) for ln, t in hits(ex) if _returned(ex, ln)]
+    if len(got) == 1 and got[0][1] == 'np.array(out)':
+        rep.ok('INDEX-DTYPE', 'embedded example', 'sa/rules/c03.py', found='fires on the untyped array of an appended list, silent on literals and dtype=int', nontrivial=False)
+    else:
+        rep.unresolved('INDEX-DTYPE', 'embedded example', 'sa/rules/c03.py', f'the query no longer behaves as expected on the embedded example: {got}')
+    rep.floor('midpoint-search functions scanned for untyped index arrays', n, 2)
+
+
+def _returned(fnode, lineno):
+    """the call on this line is (part of) a returned value, or bound to a name that is returned"""
+    import ast
+    names = set()
+    for st in ast.walk(fnode):
+        if isinstance(st, ast.Return) and st.value is not None:
+            if st.lineno <= lineno <= (st.end_lineno or st.lineno):
+                return True
+            names |= {x.id for x in ast.walk(st.value) if isinstance(x, ast.Name)}
+    for st in ast.walk(fnode):
+        if isinstance(st, ast.Assign) and st.lineno <= lineno <= (st.end_lineno or st.lineno):
+            if any(isinstance(t, ast.Name) and t.id in names for t in st.targets):
+                return True
+    return False
+
+
 def check(rep, model, tier):
     rep.rule('MID-DEF', '_find_flank_midpoints == reference (sa/refspec/cyclepoints.py) for rise / decay: inclusive window [start, end], half-height level, all-zero and '
                         'inverted-flank fallbacks to the temporal centre, floor(median(crossings)) otherwise, window start added back')
@@ -53,6 +107,7 @@ def check(rep, model, tier):
                             'which the caller goes on to use for the same cycles')
     common.args_intact(rep, model, ['find_zerox'], why='signal and extrema are shared with the caller')
     sample_diff(rep, model)
+    index_dtype(rep, model)
     rep.assumptions += ['np.median / np.sum / np.abs as documented; that the stored sample is the median crossing for a concrete signal follows from numpy semantics (not decided)']
     f = model.find('_find_flank_midpoints')
     site = f'{f.path}:{f.node.lineno} _find_flank_midpoints'
